@@ -1,4 +1,4 @@
-import ExaModel.Lemmas.FlowAction
+import ExaModel.Lemmas.FlowExaWF
 import ExaModel.Generated.FlowTable
 set_option linter.unusedSimpArgs false
 /-!
@@ -12,15 +12,451 @@ distinguisher first for flow-vpn, and traffic actions mapped to the RFC extended
 Every well-formed FlowSpec NLRI decodes to the rule an RFC reference decoder extracts, and an
 NLRI with an undefined component or a truncated value is never delivered as a shorter, broader rule.
 
-Model: `Exa.Flow` (M-Flow).  `encodeFlow`/`decodeFlow`/`encodeNlri`/`decodeNlri` are the RFC
-reference codec written from the wire layouts; `exaPack`/`exaDecode` model what ExaBGP does.
+Model: `Exa.Flow` (M-Flow, `Model/Flow.lean`).
+* `Rule = List Comp`; `encodeFlow`/`decodeFlow`/`encodeNlri`/`decodeNlri` are the RFC 8955/8956
+  reference codec written from the wire layouts (not from ExaBGP); the raw layer
+  (`RawComp`, `encodeRaw`, `decodeRaw`) is the byte grammar.
+* `exaPack`/`exaDecode` model what `flow.py` does (dict by ID + `sorted`, EOL rewrite, width by
+  class, `Flow.add`, `_encode_length`, `unpack_nlri`); `exaAction` the then-clause mapping.
+* Generated table `Generated/FlowTable.lean` (component IDs, operator family, `VALUE_SIZES`, bit
+  constants, length constants, community codes) is re-extracted from /repo on every run.
+
+What the unchanged tree gets wrong is *not* hidden in hypotheses: `GoodText` (the texts for which
+ExaBGP's encoder is proved to be the RFC encoder) excludes exactly IPv6 offsets ≠ 0, values above
+the RFC width, repeated/mixed-family prefixes and non-canonical host bits, and the `example`s at
+the end of the file exhibit the model's (and, by the correspondence run, the code's) behaviour on
+those inputs.
 -/
 namespace Exa.Props.C16
 open Exa Exa.Flow
 
+/-! ## The reference codec: round trip -/
+
 /-- **Round trip (rule).** The reference decoder is a left inverse of the reference encoder on
-    every well-formed rule: the wire format loses nothing of what a rule says. -/
+    every well-formed rule: nothing a rule says is lost or altered by the wire format. -/
 theorem flow_roundtrip (v6 : Bool) (r : Rule) (h : WFRule v6 r) : decodeFlow v6 (encodeFlow r) = .ok r :=
   flow_roundtrip' v6 r h
+
+/-- **Round trip (NLRI).** With length prefix and (flow-vpn) route distinguisher, followed by
+    any further bytes of the UPDATE: exactly the NLRI is consumed and the same rule comes back. -/
+theorem nlri_roundtrip (v6 vpn : Bool) (x : Nlri) (rest : Bytes) (h : WFNlri v6 vpn x) :
+    decodeNlri v6 vpn (encodeNlri x ++ rest) = .ok (x, rest) :=
+  nlri_roundtrip' v6 vpn x rest h
+
+/-! ## Shape of the encoding -/
+
+/-- **Ascending type order.** Reading the encoding of a well-formed rule as a sequence of
+    components gives one raw component per rule component, and the type octets met on the wire
+    are strictly ascending. -/
+theorem ordered (v6 : Bool) (r : Rule) (h : WFRule v6 r) :
+    ∃ rc, decodeRaw v6 (encodeFlow r) = .ok rc ∧ rc.map RawComp.ty = r.map Comp.ty ∧
+      ascending (rc.map RawComp.ty) = true :=
+  ⟨r.map toRaw, decodeRaw_encodeFlow v6 r h.1, map_toRaw_ty r, by rw [map_toRaw_ty]; exact h.2⟩
+
+/-- **End-of-list on exactly the last operator.** In the operator list written for a component
+    (`toRawTerms`, whose concatenation is the component's bytes), operator `i` carries the
+    end-of-list bit iff it is the last one; and there is one operator per term. -/
+theorem eol_last_only (ts : List Term) (i : Nat) (h : i < ts.length) :
+    (toRawTerms ts).length = ts.length ∧
+    opEol ((toRawTerms ts)[i]'(by rw [toRawTerms_length]; exact h)).op = decide (i + 1 = ts.length) := by
+  refine ⟨toRawTerms_length ts, ?_⟩
+  rw [toRawTerms_getElem ts i h]
+  simp only [toRawTerm]
+  exact opEol_opByte _ _ _ _ _ _ (widthCode_lt _)
+
+/-- **AND bits as written** (and the comparison bits too): operator `i` on the wire carries
+    exactly the flags of term `i`. -/
+theorem and_bits_preserved (ts : List Term) (i : Nat) (h : i < ts.length) :
+    let op := ((toRawTerms ts)[i]'(by rw [toRawTerms_length]; exact h)).op
+    opAnd op = ts[i].andBit ∧ opLt op = ts[i].lt ∧ opGt op = ts[i].gt ∧ opEq op = ts[i].eq ∧ op < 256 := by
+  intro op
+  have e : op = (toRawTerm (decide (i + 1 = ts.length)) ts[i]).op := by
+    simp only [op]; rw [toRawTerms_getElem ts i h]
+  have hc := widthCode_lt ts[i].value
+  rw [e]
+  simp only [toRawTerm]
+  exact ⟨opAnd_opByte _ _ _ _ _ _ hc, opLt_opByte _ _ _ _ _ _ hc, opGt_opByte _ _ _ _ _ _ hc,
+    opEq_opByte _ _ _ _ _ _ hc, opByte_lt _ _ _ _ _ _ hc⟩
+
+/-- **Shortest allowed width.** The value of term `i` is written in `w` bytes where `w` is the
+    width the operator announces, the value fits in `w` bytes and reads back, no shorter width of
+    1, 2, 4, 8 holds it, and for a value the component allows (`< 256 ^ maxWidth ty`) `w` is one
+    of the component's allowed widths (`≤ maxWidth ty`). -/
+theorem shortest_width (ty : Nat) (ts : List Term) (i : Nat) (h : i < ts.length)
+    (hv : ts[i].value < 256 ^ maxWidth ty) :
+    let rt := (toRawTerms ts)[i]'(by rw [toRawTerms_length]; exact h)
+    rt.val.length = opWidth rt.op ∧ ts[i].value < 256 ^ rt.val.length ∧ rdN rt.val = ts[i].value ∧
+    (∀ w, w = 1 ∨ w = 2 ∨ w = 4 ∨ w = 8 → ts[i].value < 256 ^ w → rt.val.length ≤ w) ∧
+    rt.val.length ≤ maxWidth ty ∧ WFBytes rt.val := by
+  intro rt
+  have e : rt = toRawTerm (decide (i + 1 = ts.length)) ts[i] := by
+    simp only [rt]; rw [toRawTerms_getElem ts i h]
+  have hc := widthCode_lt ts[i].value
+  have hb : ts[i].value < 18446744073709551616 := by have := maxWidth_bound ty _ hv; omega
+  rw [e]
+  simp only [toRawTerm, beN_length]
+  refine ⟨(opWidth_opByte _ _ _ _ _ _ hc).symm, widthCode_fits _ hb, rdN_beN_lt (widthCode_fits _ hb), ?_, ?_, wf_beN _ _⟩
+  · intro w hw hlt; exact widthCode_min _ w hw hlt
+  · exact widthCode_allowed ty _ hv
+
+/-- **Length switch at 240.** One octet below 240; two octets `0xFn nn` from 240 to 4095, whose
+    first octet lies in `0xF0..0xFF` and whose 12 low bits are the length; the field is made of
+    bytes, announces exactly the payload length, and the reference decoder splits on it. -/
+theorem length_switch_240 (n : Nat) (h : n < 4096) :
+    (n < 240 → lengthPrefix n = [n]) ∧
+    (240 ≤ n → lengthPrefix n = [240 + n / 256, n % 256] ∧ 240 + n / 256 < 256 ∧
+      (240 + n / 256) % 16 * 256 + n % 256 = n) ∧
+    WFBytes (lengthPrefix n) ∧ LenField rfcHi (lengthPrefix n) n ∧
+    (∀ p rest : Bytes, p.length = n → splitNlri rfcHi (lengthPrefix n ++ p ++ rest) = .ok (p, rest)) := by
+  refine ⟨lengthPrefix_small n, ?_, wf_lengthPrefix n h, lenField_lengthPrefix n h, ?_⟩
+  · intro h240; exact ⟨lengthPrefix_big n h240, by omega, by omega⟩
+  · intro p rest hp; subst hp; exact splitNlri_encode p rest h
+
+/-- **Route distinguisher first.** For flow-vpn the payload is the 8 RD bytes followed by the
+    components, the length field counts both, and the decoder hands back those 8 bytes as the RD. -/
+theorem rd_first (v6 : Bool) (rd : Bytes) (r : Rule) (rest : Bytes) (hrd : rd.length = 8)
+    (h : WFRule v6 r) (hlen : 8 + (encodeFlow r).length < 4096) :
+    encodeNlri ⟨some rd, r⟩ = lengthPrefix (8 + (encodeFlow r).length) ++ (rd ++ encodeFlow r) ∧
+    decodeNlri v6 true (encodeNlri ⟨some rd, r⟩ ++ rest) = .ok (⟨some rd, r⟩, rest) := by
+  refine ⟨?_, ?_⟩
+  · simp [encodeNlri, nlriPayload, hrd]
+  · apply nlri_roundtrip'
+    refine ⟨h, ?_, ?_⟩
+    · simp [nlriPayload, hrd]; omega
+    · exact ⟨rd, rfl, hrd⟩
+
+/-! ## Safety: what the reference decoder accepts -/
+
+/-- **Only complete NLRIs of defined components are accepted.** If the reference decoder returns
+    a rule for `bs` then `bs` is exactly: a length field, a payload of exactly the announced
+    length, and the rest; the payload is (for flow-vpn) 8 RD bytes followed by a sequence of
+    *complete* components — every type defined for the family, every prefix with all its pattern
+    bytes, every operator with all the value bytes it announces, every operator list closed by
+    its end-of-list bit on its last operator only (`CompShape`) — in strictly ascending type
+    order, and the rule is the meaning of precisely those components.  So a payload that ends
+    inside a value, or contains an undefined component, is never read as a shorter rule. -/
+theorem truncated_or_undefined_rejected (v6 vpn : Bool) (bs : Bytes) (x : Nlri) (rest : Bytes)
+    (h : decodeNlri v6 vpn bs = .ok (x, rest)) :
+    ∃ lp rdb rc, bs = lp ++ (rdb ++ encodeRaw rc) ++ rest ∧ LenField rfcHi lp (rdb ++ encodeRaw rc).length ∧
+      (if vpn then rdb.length = 8 ∧ x.rd = some rdb else rdb = [] ∧ x.rd = none) ∧
+      (∀ c ∈ rc, CompShape v6 rfcP6 c) ∧ ascending (rc.map RawComp.ty) = true ∧ x.rule = rc.map (interp v6) :=
+  decodeNlri_sound v6 vpn bs x rest h
+
+/-- **Undefined component.** Whatever complete components precede it and whatever follows, a
+    type octet the family does not define makes the whole payload an error — the components
+    parsed so far are not delivered. -/
+theorem undefined_component_rejected (v6 : Bool) (pre : List RawComp) (t : Nat) (tail : Bytes)
+    (hpre : ∀ c ∈ pre, CompShape v6 rfcP6 c) (ht : kindOf v6 t = none) :
+    decodeFlow v6 (encodeRaw pre ++ t :: tail) = .error .undefinedType := by
+  have := decodeComps_prefix_error v6 rfcP6 pre (t :: tail) .undefinedType ((encodeRaw pre ++ t :: tail).length + 1)
+    hpre (by omega) (fun f hf => decodeComps_undefined v6 rfcP6 t tail ht f hf)
+  simp only [decodeFlow, decodeRaw, this]
+
+/-- **Truncated value.** A payload whose last operator announces more value bytes than remain is
+    an error, whatever complete components and complete operators precede it. -/
+theorem truncated_value_rejected (v6 : Bool) (pre : List RawComp) (ty : Nat) (ts : List RawTerm) (op : Nat)
+    (val : Bytes) (hpre : ∀ c ∈ pre, CompShape v6 rfcP6 c)
+    (hk : kindOf v6 ty = some .numeric ∨ kindOf v6 ty = some .bitmask) (hts : TermsOpen ts)
+    (hshort : val.length < opWidth op) :
+    decodeFlow v6 (encodeRaw pre ++ ty :: (ts.flatMap encodeRawTerm ++ op :: val)) = .error .valueShort := by
+  have := decodeComps_prefix_error v6 rfcP6 pre (ty :: (ts.flatMap encodeRawTerm ++ op :: val)) .valueShort
+    ((encodeRaw pre ++ ty :: (ts.flatMap encodeRawTerm ++ op :: val)).length + 1) hpre (by omega)
+    (fun f hf => decodeComps_value_short v6 rfcP6 ty ts op val hk hts hshort f hf)
+  simp only [decodeFlow, decodeRaw, this]
+
+/-- **Missing end-of-list.** A payload that ends inside an operator list (no operator carried the
+    end-of-list bit) is an error. -/
+theorem missing_eol_rejected (v6 : Bool) (pre : List RawComp) (ty : Nat) (ts : List RawTerm)
+    (hpre : ∀ c ∈ pre, CompShape v6 rfcP6 c)
+    (hk : kindOf v6 ty = some .numeric ∨ kindOf v6 ty = some .bitmask) (hts : TermsOpen ts) :
+    decodeFlow v6 (encodeRaw pre ++ ty :: ts.flatMap encodeRawTerm) = .error .noEol := by
+  have := decodeComps_prefix_error v6 rfcP6 pre (ty :: ts.flatMap encodeRawTerm) .noEol
+    ((encodeRaw pre ++ ty :: ts.flatMap encodeRawTerm).length + 1) hpre (by omega)
+    (fun f hf => decodeComps_no_eol v6 rfcP6 ty ts hk hts f hf)
+  simp only [decodeFlow, decodeRaw, this]
+
+/-- **Truncated NLRI.** If fewer bytes follow the length field than it announces, nothing is decoded. -/
+theorem short_buffer_rejected (v6 vpn : Bool) (n : Nat) (body : Bytes) (h : n < 4096) (hshort : body.length < n) :
+    decodeNlri v6 vpn (lengthPrefix n ++ body) = .error .lengthShort := by
+  by_cases hn : n < 240
+  · rw [lengthPrefix_small n hn]
+    simp only [decodeNlri, List.cons_append, List.nil_append, splitNlri]
+    rw [if_neg (by omega), if_pos hshort]
+  · rw [lengthPrefix_big n (by omega)]
+    simp only [decodeNlri, List.cons_append, List.nil_append, splitNlri]
+    rw [if_pos (by omega)]
+    have e : rfcHi ((240 + n / 256) % 16) + n % 256 = n := by simp only [rfcHi]; omega
+    simp only [e, hshort, if_true]
+
+/-! ## Traffic actions -/
+
+/-- **Actions are the RFC extended communities.** Every action is 8 bytes, the first two are the
+    type/subtype the RFCs assign (RFC 8955 §7: 0x8006 traffic-rate-bytes, 0x800c
+    traffic-rate-packets, 0x8007 traffic-action, 0x8008 / 0x8108 / 0x8208 rt-redirect, 0x8009
+    traffic-marking; drafts: 0x0800, 0x010c), and the fields are recovered by the reference reader. -/
+theorem action_communities (a : Action) (h : WFAction a) :
+    (encodeAction a).length = 8 ∧ WFBytes (encodeAction a) ∧ decodeAction (encodeAction a) = some a ∧
+    (encodeAction a).take 2 =
+      (match a with
+       | .rateBytes _ _ => [0x80, 0x06] | .ratePackets _ _ => [0x80, 0x0c] | .trafficAction _ _ => [0x80, 0x07]
+       | .redirectAS2 _ _ => [0x80, 0x08] | .redirectIP4 _ _ => [0x81, 0x08] | .redirectAS4 _ _ => [0x82, 0x08]
+       | .mark _ => [0x80, 0x09] | .nexthopSimpson _ => [0x08, 0x00] | .nexthopIetf4 _ _ => [0x01, 0x0c]) :=
+  ⟨action_length a, action_wf a h, action_roundtrip a h, by cases a <;> rfl⟩
+
+/-- traffic-action bits: sample is bit 46 (0x02 of the last octet), terminal bit 47 (0x01);
+    traffic-marking keeps the DSCP in the six low bits of the last octet; discard is rate 0. -/
+theorem action_fields (s t : Bool) (d : Nat) (hd : d < 64) :
+    encodeAction (.trafficAction s t) = [0x80, 0x07, 0, 0, 0, 0, 0, b2n s * 2 + b2n t] ∧
+    encodeAction (.mark d) = [0x80, 0x09, 0, 0, 0, 0, 0, d] ∧ d % 64 = d ∧
+    exaAction .discard = some (.rateBytes 0 0) ∧ encodeAction (.rateBytes 0 0) = [0x80, 0x06, 0, 0, 0, 0, 0, 0] :=
+  ⟨rfl, rfl, Nat.mod_eq_of_lt hd, rfl, by decide⟩
+
+/-- the text actions the parser accepts always map to well-formed communities -/
+theorem text_actions_wellformed (ta : TAction) (a : Action) (h : exaAction ta = some a)
+    (hip : match ta with | .redirectNexthopIetf ip => ip < 4294967296 | _ => True)
+    : WFAction a ∨ ∃ n, a = .rateBytes 0 (f32OfNat n) ∨ a = .ratePackets 0 (f32OfNat n) := by
+  cases ta with
+  | discard => simp [exaAction] at h; subst h; left; simp [WFAction]
+  | rateLimitBytes n => simp [exaAction] at h; subst h; right; exact ⟨_, Or.inl rfl⟩
+  | rateLimitPackets n => simp [exaAction] at h; subst h; right; exact ⟨_, Or.inr rfl⟩
+  | redirect asn nn =>
+    simp only [exaAction] at h
+    split at h
+    · simp at h
+    · split at h
+      · split at h
+        · simp at h
+        · simp at h; subst h; left; simp only [WFAction]; omega
+      · split at h
+        · simp at h
+        · simp at h; subst h; left; simp only [WFAction]; omega
+  | markDscp d =>
+    simp only [exaAction] at h
+    split at h
+    · simp at h
+    · simp at h; subst h; left; simp only [WFAction]; omega
+  | action s t =>
+    simp only [exaAction] at h
+    split at h
+    · simp at h; subst h; left; simp [WFAction]
+    · simp at h
+  | redirectToNexthop => simp [exaAction] at h; subst h; left; simp [WFAction]
+  | redirectIp _ => simp [exaAction] at h; subst h; left; simp [WFAction]
+  | copyIp _ => simp [exaAction] at h; subst h; left; simp [WFAction]
+  | redirectNexthopIetf ip => simp [exaAction] at h; subst h; left; simpa [WFAction] using hip
+
+/-! ## Tables extracted from the code -/
+
+open Exa.Generated.FlowTable in
+/-- **Component table (partial).** Full statement: `table4 = specTable false ∧ table6 = specTable true`
+    (IDs, operator family and allowed value sizes of the code = RFC 8955/8956).  It is false of the
+    unchanged tree in one row — `FlowFragment.VALUE_SIZES = (1, 2)` where RFC 8955 §4.2.2.12 says the
+    bitmask MUST be a single octet — so what is proved is: IDs and families agree in every row, and
+    every row except type 12 agrees entirely. -/
+theorem table_matches_rfc_partial :
+    table4.map (fun r => (r.1, r.2.1)) = (specTable false).map (fun r => (r.1, r.2.1)) ∧
+    table6.map (fun r => (r.1, r.2.1)) = (specTable true).map (fun r => (r.1, r.2.1)) ∧
+    (∀ r ∈ table4, r.1 ≠ 12 → r ∈ specTable false) ∧ (∀ r ∈ table6, r.1 ≠ 12 → r ∈ specTable true) ∧
+    (∀ r ∈ table4, r.1 = 12 → r = (12, 2, [1, 2])) ∧ (∀ r ∈ table6, r.1 = 12 → r = (12, 2, [1, 2])) := by
+  refine ⟨by decide, by decide, by decide, by decide, by decide, by decide⟩
+
+/-- the RFC table is what `kindOf` / `maxWidth` (used by every theorem above) say, for both families,
+    and a type is defined iff it is 1–12, or 13 for IPv6 -/
+theorem spec_table_consistent :
+    (∀ v6 : Bool, ∀ r ∈ specTable v6,
+      (kindOf v6 r.1).map Kind.code = some r.2.1 ∧ (r.2.1 ≠ 0 → r.2.2 = widthsUpTo (maxWidth r.1))) ∧
+    (∀ v6 : Bool, ∀ t : Nat, (kindOf v6 t).isSome = true ↔ (1 ≤ t ∧ t ≤ 12) ∨ (t = 13 ∧ v6 = true)) := by
+  refine ⟨by decide, ?_⟩
+  intro v6 t
+  simp only [kindOf]
+  constructor
+  · intro h
+    split at h
+    · omega
+    · split at h
+      · omega
+      · split at h
+        · omega
+        · split at h
+          · rename_i h13; right; exact h13
+          · simp at h
+  · intro h
+    split
+    · rfl
+    · split
+      · rfl
+      · split
+        · rfl
+        · split
+          · rfl
+          · rename_i h1 h2 h3 h4
+            rcases h with h | h
+            · omega
+            · exact absurd h h4
+
+open Exa.Generated.FlowTable in
+/-- operator bit constants, value-width table and length constants of the code are the ones the
+    models are written with (`opByte`, `opWidth`, `exaEncodeLength`, `exaHi`) -/
+theorem code_constants :
+    opEOL = opByte true false 0 false false false ∧ opAND = opByte false true 0 false false false ∧
+    opLEN = 3 * 16 ∧ numLT = opByte false false 0 true false false ∧ numGT = opByte false false 0 false true false ∧
+    numEQ = opByte false false 0 false false true ∧ binNOT = numGT ∧ binMATCH = numEQ ∧
+    power = [0, 1, 2, 3].map (fun c => (c, opWidth (c * 16))) ∧
+    (∀ n, exaEncodeLength n =
+      if n < lengthCompactMax then .ok [n] else if n < lengthExtendedMax then .ok [lengthExtendedValue + n / 256, n % 256]
+      else .error .tooLong) ∧
+    (∀ n, exaHi n = n * 2 ^ lengthExtendedShift) ∧ lengthExtendedMask = 0xF0 ∧ lengthLowerMask = 0x0F := by
+  refine ⟨by decide, by decide, by decide, by decide, by decide, by decide, by decide, by decide, by decide, ?_, ?_, by decide, by decide⟩
+  · intro n; rfl
+  · intro n; simp [exaHi, lengthExtendedShift]
+
+open Exa.Generated.FlowTable in
+/-- the community codes of `traffic.py` are the RFC ones the model encodes (the two IPv6-specific
+    20-byte communities are outside the 8-byte model) -/
+theorem action_codes_generated :
+    (actionCodes.filter (fun r => r.2.2.2 == 8)).map (fun r => (r.1, r.2.1, r.2.2.1)) =
+      [("TrafficAction", 0x80, 0x07), ("TrafficMark", 0x80, 0x09), ("TrafficNextHopIPv4IETF", 0x01, 0x0c),
+       ("TrafficNextHopSimpson", 0x08, 0x00), ("TrafficRate", 0x80, 0x06), ("TrafficRatePackets", 0x80, 0x0c),
+       ("TrafficRedirect", 0x80, 0x08), ("TrafficRedirectASN4", 0x82, 0x08)] := by
+  decide
+
+open Exa.Generated.FlowTable in
+/-- the widths the code's encoder classes can write cover the RFC widths -/
+theorem generated_sizes_ok : SizesOk Exa.Generated.FlowTable.sizeOf := by
+  intro id h1 h2
+  have : id = 3 ∨ id = 4 ∨ id = 5 ∨ id = 6 ∨ id = 7 ∨ id = 8 ∨ id = 9 ∨ id = 10 ∨ id = 11 ∨ id = 12 ∨ id = 13 := by
+    omega
+  rcases this with rfl | rfl | rfl | rfl | rfl | rfl | rfl | rfl | rfl | rfl | rfl <;> decide
+
+/-! ## ExaBGP's encoder -/
+
+/-- **ExaBGP's encoder is the RFC encoder on good text.** For every text whose components the
+    RFCs can express (`GoodText`: one family, at most one source and one destination, canonical
+    prefixes with offset 0, values within the RFC width, any number of operator keywords in any
+    order, repeated operator keywords), with or without route distinguisher, below 4095 bytes:
+    `Flow.pack_nlri` as modelled (dict by ID, `sorted`, EOL rewrite, width by encoder class of the
+    generated table) emits exactly the reference encoding of the rule the text denotes, in the
+    family of its prefixes. -/
+theorem exa_pack_reference (v6 : Bool) (rd : Option Bytes) (text : List TComp) (hg : GoodText v6 text)
+    (hlen : (nlriPayload ⟨rd, toRule v6 text⟩).length < 4095) :
+    exaPack Exa.Generated.FlowTable.sizeOf rd text
+      = .ok (text.any (fun c => c.isV6), encodeNlri ⟨rd, toRule v6 text⟩) :=
+  exaPack_good _ v6 rd text generated_sizes_ok hg hlen
+
+/-- **What is sent means what was written.** Under the same hypotheses the RFC reference decoder
+    applied to the bytes ExaBGP's encoder emits (followed by anything) returns the rule as written
+    in text, the route distinguisher as written, and consumes exactly the NLRI. -/
+theorem exa_pack_meaning (v6 vpn : Bool) (rd : Option Bytes) (text : List TComp) (rest : Bytes)
+    (hg : GoodText v6 text) (hlen : (nlriPayload ⟨rd, toRule v6 text⟩).length < 4095)
+    (hrd : if vpn then ∃ b, rd = some b ∧ b.length = 8 else rd = none) :
+    ∃ fam bs, exaPack Exa.Generated.FlowTable.sizeOf rd text = .ok (fam, bs) ∧
+      decodeNlri v6 vpn (bs ++ rest) = .ok (⟨rd, toRule v6 text⟩, rest) := by
+  refine ⟨_, _, exa_pack_reference v6 rd text hg hlen, ?_⟩
+  apply nlri_roundtrip'
+  exact ⟨toRule_wf v6 text hg, by omega, hrd⟩
+
+/-- the text → rule mapping gives a well-formed rule for every good text -/
+theorem good_text_wellformed (v6 : Bool) (text : List TComp) (hg : GoodText v6 text) : WFRule v6 (toRule v6 text) :=
+  toRule_wf v6 text hg
+
+/-! ## ExaBGP's decoder: the length field -/
+
+/-- ExaBGP's reading of the two-octet length agrees with the RFC exactly when the low nibble of
+    the first octet is 0, i.e. for lengths below 256 (`FLOW_LENGTH_EXTENDED_SHIFT = 16`). -/
+theorem exa_length_agrees_below_256 (n : Nat) : exaHi n = rfcHi n ↔ n = 0 := by
+  simp only [exaHi, rfcHi]; omega
+
+/-- … and an NLRI announcing 256–4095 bytes in the RFC form is never decoded by it: `unpack_nlri`
+    raises instead (the buffer would have to hold at least 65536 more bytes). -/
+theorem exa_decode_long_raises (v6 vpn : Bool) (b c : Nat) (t : Bytes) (hb : 241 ≤ b ∧ b < 256)
+    (hshort : t.length < 65536) : exaDecode v6 vpn (b :: c :: t) = .raise := by
+  have h1 : b / 16 % 16 = 15 := by omega
+  have h2 : t.length < exaHi (b % 16) + c := by simp only [exaHi]; omega
+  simp only [exaDecode, splitNlri, h1, if_true, h2]
+
+/-! ## Non-vacuity and witnesses -/
+
+/-- a rule with a prefix, a numeric list with AND and a two-byte value, and a bitmask: well-formed -/
+def sampleRule : Rule :=
+  [.prefix4 1 24 0x0A0000, .ops 3 [⟨false, false, false, true, 6⟩],
+   .ops 5 [⟨false, false, false, true, 80⟩, ⟨false, false, true, false, 1024⟩, ⟨true, true, false, false, 2048⟩],
+   .ops 9 [⟨false, false, false, true, 0x12⟩]]
+
+example : WFRule false sampleRule := by decide
+example : encodeFlow sampleRule = [1, 24, 10, 0, 0, 3, 0x81, 6, 5, 0x01, 80, 0x12, 4, 0, 0xd4, 8, 0, 9, 0x81, 0x12] := by decide
+example : decodeFlow false (encodeFlow sampleRule) = .ok sampleRule := by decide
+example : WFNlri false true ⟨some [0, 0, 0xfd, 0xe8, 0, 0, 0, 1], sampleRule⟩ :=
+  ⟨by decide, by decide, ⟨_, rfl, rfl⟩⟩
+/-- RFC 8956 §3.8.2: source ::1234:5678:9a00:0/64-104 is `02 68 40 12 34 56 78 9a` -/
+example : encodeFlow [.prefix6 2 104 64 0x123456789a] = [2, 0x68, 0x40, 0x12, 0x34, 0x56, 0x78, 0x9a] := by decide
+example : WFRule true [.prefix6 2 104 64 0x123456789a] := by decide
+example : decodeFlow true [2, 0x68, 0x40, 0x12, 0x34, 0x56, 0x78, 0x9a] = .ok [.prefix6 2 104 64 0x123456789a] := by decide
+/-- hypotheses of the rejection theorems are satisfiable: destination 10/8 then type 13 in IPv4; a
+    port operator announcing 2 bytes with 1 left; an operator list without end-of-list -/
+example : decodeFlow false [1, 8, 10, 13, 0x81, 5] = .error .undefinedType := by decide
+example : decodeFlow false [1, 8, 10, 5, 0x91, 0x50] = .error .valueShort := by decide
+example : decodeFlow false [1, 8, 10, 5, 0x01, 0x50] = .error .noEol := by decide
+example : decodeNlri false false [4, 1, 8, 10] = .error .lengthShort := by decide
+example : lengthPrefix 239 = [0xef] ∧ lengthPrefix 240 = [0xf0, 0xf0] ∧ lengthPrefix 4095 = [0xff, 0xff] := by decide
+example : f32OfNat 9600 = 0x46160000 ∧ f32OfNat 16777217 = 0x4b800000 ∧ f32OfNat 1000000000000 = 0x5368d4a5 := by decide
+
+/-- a good text (out of order, repeated keyword, AND chain): `GoodText` is satisfiable -/
+def sampleText : List TComp :=
+  [.op 5 1 80, .prefix4 1 0x0A000000 24, .op 3 1 6, .op 5 2 1024, .op 5 (0x40 + 4) 2048]
+
+example : GoodText false sampleText := by
+  refine ⟨?_, ?_, ?_⟩
+  · intro c hc
+    simp only [sampleText, List.mem_cons, List.not_mem_nil, or_false] at hc
+    rcases hc with rfl | rfl | rfl | rfl | rfl
+    · unfold GoodTComp; exact ⟨by decide, 80, rfl, by decide, by decide, by decide, by decide⟩
+    · unfold GoodTComp; decide
+    · unfold GoodTComp; exact ⟨by decide, 6, rfl, by decide, by decide, by decide, by decide⟩
+    · unfold GoodTComp; exact ⟨by decide, 1024, rfl, by decide, by decide, by decide, by decide⟩
+    · unfold GoodTComp; exact ⟨by decide, 2048, rfl, by decide, by decide, by decide, by decide⟩
+  · intro id hid; rcases hid with rfl | rfl <;> decide
+  · intro id p hp
+    have : (opPairs (sampleText.filter (fun c => c.ty == id))).take 1 = [] ∨
+        (opPairs (sampleText.filter (fun c => c.ty == id))).take 1 = [(1, 80)] ∨
+        (opPairs (sampleText.filter (fun c => c.ty == id))).take 1 = [(1, 6)] := by
+      by_cases h5 : id = 5
+      · subst h5; right; left; decide
+      · by_cases h3 : id = 3
+        · subst h3; right; right; decide
+        · left
+          by_cases h1 : id = 1
+          · subst h1; decide
+          · have a5 : (5 == id) = false := by simp; omega
+            have a3 : (3 == id) = false := by simp; omega
+            have a1 : (1 == id) = false := by simp; omega
+            have e : sampleText.filter (fun c => c.ty == id) = [] := by
+              simp [sampleText, TComp.ty, List.filter, a5, a3, a1]
+            rw [e]; rfl
+    rcases this with e | e | e <;> rw [e] at hp <;> simp at hp <;> subst hp <;> decide
+
+example : exaPack Exa.Generated.FlowTable.sizeOf none sampleText
+    = .ok (false, [17, 1, 24, 10, 0, 0, 3, 0x81, 6, 5, 0x01, 80, 0x12, 4, 0, 0xd4, 8, 0]) := by decide
+example : toRule false sampleText =
+    [.prefix4 1 24 0x0A0000, .ops 3 [⟨false, false, false, true, 6⟩],
+     .ops 5 [⟨false, false, false, true, 80⟩, ⟨false, false, true, false, 1024⟩, ⟨true, true, false, false, 2048⟩]] := by decide
+
+/-! ### Witnesses: where the model of the unchanged code departs from the RFC (each reproduced on the real
+    code by the correspondence run and reported by the oracle) -/
+
+/-- F27: `protocol 256` is accepted by the parser; `pack_nlri` raises `ValueError` -/
+example : exaPack Exa.Generated.FlowTable.sizeOf none [.op 3 1 256] = .error .valueError := by decide
+/-- IPv6 offset: `destination 2001:db8::/64/32` is written with 8 address bytes; RFC 8956 carries the 32 pattern bits -/
+example : exaPack Exa.Generated.FlowTable.sizeOf none [.prefix6 1 0x20010db8000000000000000000000000 64 32]
+    = .ok (true, [11, 1, 64, 32, 0x20, 0x01, 0x0d, 0xb8, 0, 0, 0, 0]) ∧
+    encodeNlri ⟨none, toRule true [.prefix6 1 0x20010db8000000000000000000000000 64 32]⟩ = [7, 1, 64, 32, 0, 0, 0, 0] := by
+  decide
+/-- a prefix of the other family is silently dropped by `Flow.add`: the rule sent is broader than written -/
+example : exaPack Exa.Generated.FlowTable.sizeOf none [.prefix4 2 0x0A000000 8, .prefix6 1 0x20010db8000000000000000000000000 32 0]
+    = .ok (false, [3, 2, 8, 10]) := by decide
+/-- a payload of exactly 4095 bytes is refused although `0xFFFF` encodes it -/
+example : exaEncodeLength 4095 = .error .tooLong ∧ lengthPrefix 4095 = [255, 255] := by decide
+/-- a flow-vpn NLRI shorter than a route distinguisher is delivered as a rule without one -/
+example : exaDecode false true [3, 3, 0x81, 6] = .ok none [.ops 3 [⟨0x81, [6]⟩]] [] ∧
+    decodeNlri false true [3, 3, 0x81, 6] = .error .rdShort := by decide
 
 end Exa.Props.C16
